@@ -942,16 +942,12 @@ func (vm *VM) throw(err *RuntimeError, noTrace bool) error {
 	}
 
 	vm.frameIndex = index + 1
-
-	if e := vm.handleThrownError(frame, err); e != nil {
-		return e
-	}
-
+	// switch to the frame before handling the error, handler of the frame may
+	// re-throw the error to its own outer handlers or to the previous frames.
 	vm.curFrame = frame
-	vm.curFrame.fn = frame.fn
 	vm.curInsts = frame.fn.Instructions
 
-	return nil
+	return vm.handleThrownError(frame, err)
 }
 
 func (vm *VM) handleThrownError(frame *frame, err *RuntimeError) error {
